@@ -947,8 +947,8 @@ class Executor:
         bad = []
         r = fresh('fr_r', Ref)
         was_alive = pre.heap.alive(r)
-        self_only = '$world_havocked' in post.heap.maps and '$world_havocked' not in pre.heap.maps \
-            and self.task_self is not None
+        wa, wb = pre.heap.maps.get('$world_havocked'), post.heap.maps.get('$world_havocked')
+        self_only = wb is not None and (wa is None or not wa.eq(wb)) and self.task_self is not None
         if self_only:
             # an external call (user callback, neighbour) ran in between: it may have changed other objects
             # through their public API; the frame is checked for the object under verification
